@@ -63,7 +63,7 @@ def model_check(ctx):
     # anti-vacuity: with the F7 behaviour (emptied flatten keeps the old chain) the model must fail
     ctx.tlc_mc("MC_MetaChain.tla", "MetaChain_dev_f7.cfg", timeout=300, workers=2,
                expect_violation="ReopenSeesPersisted", count=False)
-    # an entry put with an older clock than the chain's (Meta.LayeredOnto before fix 31dd09b)
+    # an entry put with an older clock than the chain's (Meta.LayeredOnto before fix 62705c7)
     ctx.tlc_mc("MC_MetaChain.tla", "MetaChain_dev_stale.cfg", timeout=300, workers=2,
                expect_violation="ReopenSeesPersisted", count=False)
     # the hash-trie level: with / without / pullUp with generation based path copying on a
